@@ -95,6 +95,7 @@ type impl struct {
 	lostInFlight int
 	sortAck      bool
 	dupTransmissions int
+	seenOnInc    map[string]string // incarnation/sequence -> chunk as reported
 	bufBytes     int    // oracle: payload bytes written since the last chunk was cut
 	sizeViolation string
 }
@@ -275,13 +276,26 @@ func (i *impl) report() string {
 		s   string
 	}
 	var cs []ch
+	if i.seenOnInc == nil {
+		i.seenOnInc = map[string]string{}
+	}
 	for _, r := range recs {
 		switch m := r.Msg.(type) {
 		case *message.UpstreamChunk:
 			if i.onlyInc >= 0 && r.Inc > i.onlyInc {
 				continue
 			}
-			cs = append(cs, ch{m.StreamChunk.SequenceNumber, fmt.Sprintf("%d{%s}{%s}", m.StreamChunk.SequenceNumber, showWire(m.StreamChunk.DataPointGroups), showIDs(m.DataIDs))})
+			sig := fmt.Sprintf("%d{%s}{%s}", m.StreamChunk.SequenceNumber, showWire(m.StreamChunk.DataPointGroups), showIDs(m.DataIDs))
+			// the second copy of a doubly transmitted chunk (see below) may arrive while a later op is running: a copy identical to
+			// one this transport has delivered already is counted, not reported (different content under one number is judged by
+			// the oracle on the whole ledger)
+			key := fmt.Sprintf("%d/%d", r.Inc, m.StreamChunk.SequenceNumber)
+			if prev, ok := i.seenOnInc[key]; ok && prev == sig {
+				i.dupTransmissions++
+				continue
+			}
+			i.seenOnInc[key] = sig
+			cs = append(cs, ch{m.StreamChunk.SequenceNumber, sig})
 			i.waiting[m.StreamChunk.SequenceNumber] = true
 		case *message.UpstreamCloseRequest:
 			closeReq = fmt.Sprintf(" close=%d/%d", m.TotalDataPoints, m.FinalSequenceNumber)
@@ -439,7 +453,7 @@ func (i *impl) exec(op string) string {
 				a, _ := strconv.Atoi(p[0])
 				d, _ := strconv.Atoi(p[1])
 				als[uint32(a)] = dp.ID(d)
-				if st := inc.UpByAlias(1); st != nil {
+				if st := inc.UpByAlias(0); st != nil {
 					i.b.Lock()
 					if _, dup := st.Aliases[uint32(a)]; !dup {
 						st.Aliases[uint32(a)] = dp.ID(d)
@@ -451,7 +465,7 @@ func (i *impl) exec(op string) string {
 		// FIFO sentinel through readAliasLoop: a fresh alias for an id nobody uses
 		i.sentinel++
 		sa := uint32(100000 + i.sentinel)
-		alias := uint32(1) // the first upstream of the first incarnation
+		alias := uint32(0) // the first upstream of an incarnation
 		inc.Send(&message.UpstreamChunkAck{StreamIDAlias: alias, Results: res, DataIDAliases: als, ExtensionFields: &message.UpstreamChunkAckExtensionFields{}})
 		inc.Send(&message.UpstreamChunkAck{StreamIDAlias: alias, DataIDAliases: map[uint32]*message.DataID{sa: dp.ID(900000 + i.sentinel)}, ExtensionFields: &message.UpstreamChunkAckExtensionFields{}})
 		i.results += len(res)
@@ -590,7 +604,7 @@ func (i *impl) exec(op string) string {
 			}
 			switch m := r.Msg.(type) {
 			case *message.UpstreamResumeRequest:
-				if up := cur.UpByAlias(1); up == nil || up.ID != m.StreamID {
+				if up := cur.UpByAlias(0); up == nil || up.ID != m.StreamID {
 					sameID = "other"
 				}
 			case *message.UpstreamChunk:
@@ -845,7 +859,7 @@ func (i *impl) oracle(h *lp.H) {
 	afterClose := 0
 	total := 0
 	inc := i.b.Cur()
-	st := inc.UpByAlias(1)
+	st := inc.UpByAlias(0)
 	// chunks are read in sequence-number order (they travel in one goroutine each and may overtake one another on the way)
 	recs := i.b.LogFrom(0)
 	var chunkRecs, rest []broker.Rec
